@@ -311,6 +311,11 @@ def lookup_axioms(eng, st):
         z3.And(inner, 0 <= i, i < _nch(st, n), le(p0, p1, _ep0(ci), _ep1(ci)),
                z3.Or(i == 0, z3.Not(le(p0, p1, _ep0(prev), _ep1(prev))))),
         _fge(n, p0, p1) == _fge(ci, p0, p1)), patterns=[z3.MultiPattern(ci, _fge(n, p0, p1))]))
+    # the leaf the lookup descends to lies below the node it starts from (consequence of the unfolding above by induction on
+    # the height, stated because the solver does no induction)
+    f = _fge(n, p0, p1)
+    ax.append(z3.ForAll([n, p0, p1], z3.Implies(n != 0, z3.And(_root(f) == _root(n), _lo(n) <= _lo(f), _lo(f) <= _hi(n))),
+                        patterns=[_fge(n, p0, p1)]))
     # start positions are non-decreasing in leaf order as well (C03): a node starts no later than any leaf below it
     f = _fge(n, p0, p1)
     ax.append(z3.ForAll([n, p0, p1], z3.Implies(n != 0, z3.And(f != 0, _isleaf(f), le(_sp0(n), _sp1(n), _sp0(f), _sp1(f)))),
